@@ -142,11 +142,11 @@ func checkC15(c *Ctx) error {
 			continue
 		}
 		if !u.Compiled {
-			c.Side("C01", "does-not-compile:"+errClass(u.CompileErr), fmt.Sprintf("unit %s: %s", u.ID, firstLines(u.CompileErr, 6)), files)
+			c.Violate("does-not-compile:"+errClass(u.CompileErr), fmt.Sprintf("unit %s: %s", u.ID, firstLines(u.CompileErr, 6)), files)
 			continue
 		}
 		if len(u.Results) == 0 {
-			c.Side("C01", "probe:"+sigWords(u.ProbeErr), fmt.Sprintf("unit %s: %s", u.ID, u.ProbeErr), files)
+			c.Violate("probe:"+sigWords(u.ProbeErr), fmt.Sprintf("unit %s: %s", u.ID, u.ProbeErr), files)
 			continue
 		}
 		exp := RunModel(u.Cfg, u.Ops, nil)
@@ -262,7 +262,13 @@ func checkC15(c *Ctx) error {
 				}
 			}
 			scope := sv.Scope
-			*sv = cfg.Service{Name: sv.Name, Todo: cfg.P(true), Constructor: cfg.P(`"fixt/pa".New`), Args: args, Scope: scope,
+			var sameGetter *string
+			for _, other := range conf.Services {
+				if other.Name != sv.Name && other.Getter != nil && !other.IsTodo() {
+					sameGetter = cfg.P(*other.Getter) // the getter of a service that really exists: ignored on a placeholder
+				}
+			}
+			*sv = cfg.Service{Name: sv.Name, Todo: cfg.P(true), Getter: sameGetter, Constructor: cfg.P(`"fixt/pa".New`), Args: args, Scope: scope,
 				Calls: []cfg.Call{{Method: "Set", Args: []cfg.Val{cfg.Str("%also.missing%")}}}, Fields: []cfg.KV{{K: "F1", V: cfg.Str("@missing.too")}}}
 		}
 		// switching a service off may remove the reason for a scope conflict, never add one; cycles and conflicts that remain
